@@ -388,12 +388,15 @@ EXPLANATION = (
     "Bounded symbolic execution (symx proxies + z3) of the real Composition.connect / _connect_components / "
     "Component.connect / ConnectHelper.connect (+ _apply_*_rules, _exchange_in_infos, _push, _push_data) and the "
     "Output/Input info and data exchange, with harness components whose connect behaviour is a spec (per input: info "
-    "declared or from a FromOutput rule, initial pull or not; per output: info declared, from a FromInput rule, or handed "
+    "declared or from a FromOutput rule (optionally followed by a FromValue rule), initial pull or not; per output: info "
+    "declared, from a FromInput rule (optionally followed by a FromValue rule), or handed "
     "over manually once the input info arrived; initial data depending on chosen pulled inputs). Start offsets of the "
     "components relative to the composition start are symbolic (double initial publication when they differ: z3 must "
     "prove a publication exists for both times); listing order is a symbolic choice (all permutations). Oracle: an "
     "independent least fix-point over the declared exchanges decides 'acyclic' and the exact set of stuck components; "
-    "every single ConnectHelper.connect call is checked for status vs. observed progress. The dependency shapes are a "
+    "every single ConnectHelper.connect call is checked for status vs. observed progress; the units every slot must carry "
+    "and the value and units of every initial pull are derived from the declared rules alone (resolve_units) and "
+    "compared with the exchanged infos and the delivered data. The dependency shapes are a "
     "finite catalogue -- the solver's part is path feasibility, the orders, and the start-time arithmetic."
 )
 ASSUMPTIONS = ["catalogue of 16 dependency scenarios (incl. transfer rules followed by a value rule, in both directions) (incl. links branching behind a shared pass-through adapter and an adapter nobody reads from) (vf/props/c06.py SCENARIOS), up to 4 components"]
